@@ -774,6 +774,121 @@ Proof.
       rewrite cross_zero_l. apply const3_derive.
 Qed.
 
+(* ================================================================== a body of a tree is one segment of a chain *)
+Lemma chainFK_joints (js : list (joint R)) : forall (st : vec3 R * quat R) (rest : list (@cstep R))
+    (p : vec3 R) (q : quat R) (l : list (janchor R)),
+  jointsLoop js st = Some (p, q, l) ->
+  chainFK (map (@CJoint R) js ++ rest)%list st = chainFK rest (p, q).
+Proof.
+  induction js as [|j r IH]; intros st rest p q l E; cbn [jointsLoop] in E.
+  - destruct st as [p0 q0]. cbn [fst snd] in E. inv3 E. reflexivity.
+  - cbn [map app chainFK chainStep].
+    destruct (jointStep j st) as [[[p1 q1] ja]|] eqn:ES; [|discriminate E].
+    destruct (jointsLoop r (p1, q1)) as [[[p2 q2] l2]|] eqn:EL; [|discriminate E].
+    inv3 E. eapply IH. exact EL.
+Qed.
+
+(* a regular (not free-floating, not mocap) body whose parent is not the world: its frame is obtained from the
+   parent's frame by the chain  child offset :: its joints :: end of body  -- the steps of C07_jac_column_partial *)
+Lemma bodyFrame_is_chain (frames : list (frame R)) (b : body R) (pp : vec3 R) (pq : quat R)
+      (f : frame R) (ja : list (janchor R)) :
+  freeJoint (b_joints b) = None -> b_mocap b = None -> b_parent b <> O ->
+  nth_error frames (b_parent b) = Some (pp, pq, quat2Mat pq) ->
+  bodyFrame frames b = Some (f, ja) ->
+  chainFK (CChild (b_pos b) (b_quat b) :: map (@CJoint R) (b_joints b) ++ CFinish :: nil)%list (pp, pq) =
+    Some (fst (fst f), snd (fst f)) /\
+  snd f = quat2Mat (snd (fst f)).
+Proof.
+  intros NF NM NP EN. unfold bodyFrame, bodyStart. rewrite NF, NM, EN.
+  replace (Nat.eqb (b_parent b) 0) with false by (symmetry; apply Nat.eqb_neq; exact NP).
+  destruct (jointsLoop (b_joints b) (add3 (mulMatVec3 (quat2Mat pq) (b_pos b)) pp, mulQuat pq (b_quat b)))
+    as [[[p q] l]|] eqn:EL; [|discriminate].
+  intros E. inv2 E. cbn [chainFK chainStep fst snd].
+  rewrite (chainFK_joints _ _ _ _ _ _ EL). cbn [chainFK chainStep fst snd].
+  unfold finishBody. cbn [fst snd]. split; reflexivity.
+Qed.
+
+Lemma firstn_prefix {A : Type} (l pre : list A) (x : A) :
+  firstn (length pre + 1) l = (pre ++ x :: nil)%list -> firstn (length pre) l = pre.
+Proof.
+  intros E. transitivity (firstn (length pre) (firstn (length pre + 1) l)).
+  - rewrite firstn_firstn. f_equal. lia.
+  - rewrite E, firstn_app, firstn_all, Nat.sub_diag. simpl. apply app_nil_r.
+Qed.
+
+Lemma nth_error_firstn_some {A : Type} (l : list A) : forall (n k : nat) (x : A),
+  nth_error (firstn n l) k = Some x -> nth_error l k = Some x.
+Proof.
+  induction l as [|y r IH]; intros [|n] [|k] x E; simpl in *; try discriminate; auto. eapply IH; eauto.
+Qed.
+
+(* every body of a tree is computed by bodyFrame from the frames of the bodies before it *)
+Lemma kinLoop_nth (bs : list (body R)) : forall (frames : list (frame R)) (jas : list (list (janchor R)))
+    (frs : list (frame R)) (jr : list (list (janchor R))) (k : nat) (b : body R),
+  kinLoop bs frames jas = Some (frs, jr) -> nth_error bs k = Some b ->
+  exists (f : frame R) (ja : list (janchor R)),
+    bodyFrame (firstn (length frames + k) frs) b = Some (f, ja) /\
+    nth_error frs (length frames + k) = Some f /\
+    firstn (length frames) frs = frames.
+Proof.
+  induction bs as [|b0 r IH]; intros frames jas frs jr k b E EN; [destruct k; discriminate EN|].
+  cbn [kinLoop] in E. destruct (bodyFrame frames b0) as [[f0 ja0]|] eqn:EB; [|discriminate E].
+  assert (PRE : forall (l : list (body R)) (fr : list (frame R)) (js : list (list (janchor R)))
+                  (out : list (frame R)) (oj : list (list (janchor R))),
+            kinLoop l fr js = Some (out, oj) -> firstn (length fr) out = fr).
+  { induction l as [|x l IHl]; intros fr js out oj K; cbn [kinLoop] in K.
+    - inv2 K. apply firstn_all.
+    - destruct (bodyFrame fr x) as [[fx jx]|]; [|discriminate K].
+      apply IHl in K. rewrite app_length in K. simpl in K.
+      eapply firstn_prefix. exact K. }
+  pose proof (PRE r (frames ++ f0 :: nil)%list (jas ++ ja0 :: nil)%list frs jr E) as P1.
+  rewrite app_length in P1. simpl in P1.
+  assert (P0 : firstn (length frames) frs = frames).
+  { eapply firstn_prefix. exact P1. }
+  destruct k as [|k].
+  - cbn [nth_error] in EN. apply some_inj in EN. subst b0. exists f0, ja0.
+    rewrite Nat.add_0_r, P0. split; [exact EB|]. split; [|reflexivity].
+    assert (NE : nth_error (firstn (length frames + 1) frs) (length frames) = Some f0).
+    { rewrite P1. rewrite nth_error_app2 by lia. rewrite Nat.sub_diag. reflexivity. }
+    eapply nth_error_firstn_some. exact NE.
+  - cbn [nth_error] in EN.
+    destruct (IH _ _ _ _ k b E EN) as (f & ja & A & B & _).
+    rewrite app_length in A, B. simpl in A, B.
+    replace (length frames + 1 + k)%nat with (length frames + S k)%nat in A, B by lia.
+    exists f, ja. auto.
+Qed.
+
+Lemma nth_error_firstn_lt {A : Type} (l : list A) : forall (n k : nat), (k < n)%nat -> nth_error (firstn n l) k = nth_error l k.
+Proof. induction l as [|y r IH]; intros [|n] [|k] L; simpl; auto; try lia. apply IH. lia. Qed.
+
+(* in a tree (any shape): the frame of every regular body whose parent is not the world is the chain
+   child offset :: joints :: end of body  applied to the frame of its parent *)
+Lemma tree_body_chain (bs : list (body R)) (frs : list (frame R)) (jas : list (list (janchor R))) (k : nat) (b : body R) :
+  kinematics bs = Some (frs, jas) -> nth_error bs k = Some b ->
+  freeJoint (b_joints b) = None -> b_mocap b = None -> b_parent b <> O -> (b_parent b < S k)%nat ->
+  exists (pp xpos : vec3 R) (pq xquat : quat R),
+    nth_error frs (b_parent b) = Some (pp, pq, quat2Mat pq) /\
+    nth_error frs (S k) = Some (xpos, xquat, quat2Mat xquat) /\
+    chainFK (CChild (b_pos b) (b_quat b) :: map (@CJoint R) (b_joints b) ++ CFinish :: nil)%list (pp, pq) =
+      Some (xpos, xquat).
+Proof.
+  intros K EN NF NM NP LT.
+  destruct (frames_any bs frs jas K) as [_ FA].
+  unfold kinematics in K.
+  destruct (kinLoop_nth bs _ _ frs jas k b K EN) as (f & ja & BF & NF1 & _). cbn [length Nat.add] in BF, NF1.
+  assert (BF' := BF). unfold bodyFrame in BF'. rewrite NF in BF'. unfold bodyStart in BF'. rewrite NM in BF'.
+  replace (Nat.eqb (b_parent b) 0) with false in BF' by (symmetry; apply Nat.eqb_neq; exact NP).
+  destruct (nth_error (firstn (S k) frs) (b_parent b)) as [[[pp pq] pm]|] eqn:EP; [|discriminate BF'].
+  clear BF'.
+  assert (EP2 : nth_error frs (b_parent b) = Some (pp, pq, pm)) by (eapply nth_error_firstn_some; exact EP).
+  assert (PM : pm = quat2Mat pq).
+  { apply nth_error_In in EP2. rewrite Forall_forall in FA. apply FA in EP2. destruct EP2 as [E _]. exact E. }
+  subst pm.
+  destruct (bodyFrame_is_chain _ b pp pq f ja NF NM NP EP BF) as [CH FM].
+  destruct f as [[xpos xquat] xm]. cbn [fst snd] in CH, FM. subst xm.
+  exists pp, xpos, pq, xquat. auto.
+Qed.
+
 (* ================================================================== satisfiability of the hypotheses (Examples of Props/C07.v) *)
 Lemma goodQV_example :
   goodQV (JHinge :: JBall :: JSlide :: nil)%list (3 :: 0 :: 1 :: 0 :: 0 :: 7 :: nil)%list (2 :: 0 :: 0 :: PI :: -1 :: nil)%list 1.
